@@ -7,44 +7,70 @@ A `TexArgs` is a Python `list` (the argument groups, field `lst`) with a shadow 
 was handed in but is neither a `TexGroup` nor a `TexCmd`. The model follows the code as it
 is, `.all` book-keeping included; an exception is an output (`typeError`, `valueError`,
 `indexError`) returned together with the state *as it is at the raise*, so partial
-mutation is visible.
+mutation would be visible.
 
-Equality of items is the implementation's: `TexExpr.__eq__` is `str(a) == str(b)`, and a
+**Identity.** Since the repair "TexArgs kept its shadow list `.all` in step by text, not by
+object" the class looks its arguments up in `.all` *by identity* (`other is item`) and only
+falls back to equality. So objects carry an identity here: an `Obj` is an `Expr` together
+with an `Oid`. Objects handed in by the caller have the identity the caller gives them
+(`Oid.ext`; the same object may be handed in – and be in the list – several times); objects
+the class makes itself (`TexGroup.parse` of an unparsed string) get `Oid.made n` from the
+allocation counter `next` of the state, so they are distinct from each other.
+
+**Equality** is the implementation's: `TexExpr.__eq__` is `str(a) == str(b)`, and a
 whitespace string compared with an expression ends in the same test through the reflected
-`__eq__`; two strings compare as strings. So `list.index`, `list.remove` look for the
-first item with equal *text* (`ArgItem.txt`). Python's identity short cut (`a is b`) never
-changes the answer, because identical objects have equal text.
+`__eq__`; two strings compare as strings. So `list.index` looks for the first item with
+equal *text* (`ArgItem.txt`); Python's identity short cut inside `list.index` never changes
+that answer, because an identical object has equal text.
 
-Objects: the model has no object identity. `ArgIn.grp e` is "the object `e`"; a `TexText`
-object is a `str` subclass and is treated by `__coerce` exactly as the string it holds
-(the only difference, invisible in `str`, is that a whitespace `TexText` is stored in
-`.all` as that object rather than as a plain `str`).
+A `TexText` object is a `str` subclass and is treated by `__coerce` exactly as the string it
+holds (the only difference, invisible in `str`, is that a whitespace `TexText` is stored in
+`.all` as that object rather than as a plain `str`; it is never looked up).
 -/
 namespace TexSoup
 
+/-- Object identity (`id(obj)`): given by the caller, or allocated by the class. -/
+inductive Oid where
+  | ext (n : Nat)
+  | made (n : Nat)
+  deriving DecidableEq, Repr, Inhabited
+
+/-- An expression object: identity and value. -/
+structure Obj where
+  id : Oid
+  e : Expr
+  deriving Repr, Inhabited
+
 /-- An entry of `.all`: an expression object or a whitespace string. -/
 inductive ArgItem where
-  | grp (e : Expr)
+  | grp (o : Obj)
   | ws (s : Str)
   deriving Repr, Inhabited
 
-/-- `str(item)` – the text all comparisons go by. -/
+/-- `str(item)` – the text `==` goes by. -/
 def ArgItem.txt : ArgItem → Str
-  | .grp e => ser e
+  | .grp o => ser o.e
   | .ws s => s
 
-/-- State of a `TexArgs`: the list itself and `.all`. -/
+/-- `entry is obj` for the object with identity `id`. -/
+def ArgItem.isObj (id : Oid) : ArgItem → Bool
+  | .grp o => o.id == id
+  | .ws _ => false
+
+/-- State of a `TexArgs`: the list itself, `.all`, and the allocation counter for the
+objects `TexGroup.parse` creates. -/
 structure ArgsSt where
-  lst : List Expr
+  lst : List Obj
   all : List ArgItem
+  next : Nat
   deriving Repr, Inhabited
 
-/-- `TexArgs()`. -/
-def ArgsSt.empty : ArgsSt := ⟨[], []⟩
+/-- `TexArgs()` (with the allocation counter at `n`). -/
+def ArgsSt.empty (n : Nat := 0) : ArgsSt := ⟨[], [], n⟩
 
 /-- What a caller hands to `append/insert/remove`: an object or an unparsed `str`. -/
 inductive ArgIn where
-  | grp (e : Expr)
+  | grp (o : Obj)
   | str (s : Str)
   deriving Repr, Inhabited
 
@@ -115,6 +141,11 @@ def idxOfTxt {α : Type} (f : α → Str) (t : Str) : List α → Option Nat
   | [] => none
   | a :: r => if f a = t then some 0 else (idxOfTxt f t r).map (· + 1)
 
+/-- Position of the first entry of `.all` that *is* the object with identity `id`. -/
+def idxOfId (id : Oid) : List ArgItem → Option Nat
+  | [] => none
+  | a :: r => if a.isObj id then some 0 else (idxOfId id r).map (· + 1)
+
 /-! ## `TexGroup.parse` and `TexArgs.__coerce` -/
 
 /-- `s.endswith(p)`. -/
@@ -133,16 +164,18 @@ def parseGroupWith : List GKind → Str → Option Expr
 
 def parseGroup (s : Str) : Option Expr := parseGroupWith allGKinds s
 
-/-- `__coerce` on a `str`: whitespace stays, everything else must parse as a group
-(`none` is `TypeError`). -/
-def coerceStr (s : Str) : Option ArgItem :=
-  if isBlank s then some (.ws s) else (parseGroup s).map .grp
+/-- `__coerce` on a `str`: whitespace stays, everything else must parse as a group – a new
+object, which takes the next identity (`none` is `TypeError`). Returns the value and the
+allocation counter afterwards. -/
+def coerceStr (next : Nat) (s : Str) : Option (ArgItem × Nat) :=
+  if isBlank s then some (.ws s, next)
+  else (parseGroup s).map fun e => (.grp ⟨.made next, e⟩, next + 1)
 
 /-- `self.__coerce(arg)` (`none` is `TypeError`). -/
-def coerce : ArgIn → Option ArgItem
-  | .str s => coerceStr s
-  | .grp (.text s _) => coerceStr s      -- `TexText` is a `str`
-  | .grp e => some (.grp e)
+def coerce (next : Nat) : ArgIn → Option (ArgItem × Nat)
+  | .str s => coerceStr next s
+  | .grp ⟨_, .text s _⟩ => coerceStr next s      -- `TexText` is a `str`
+  | .grp o => some (.grp o, next)
 
 /-- `isinstance(arg, (TexGroup, TexCmd))`. -/
 def isArgObj : Expr → Bool
@@ -151,16 +184,27 @@ def isArgObj : Expr → Bool
   | _ => false
 
 /-- The item goes into the list proper only if it is a group or command object. -/
-def listed : ArgItem → Option Expr
-  | .grp e => if isArgObj e then some e else none
+def listed : ArgItem → Option Obj
+  | .grp o => if isArgObj o.e then some o else none
   | .ws _ => none
+
+/-- `self.all.index(item)`: the first textually equal entry (`none` is `ValueError`). -/
+def indexTxt (o : Obj) (all : List ArgItem) : Option Nat := idxOfTxt ArgItem.txt (ser o.e) all
+
+/-- `self.__index_all(item)`: the entry that *is* `item` if there is one, else
+`self.all.index(item)` (`none` is its `ValueError`). -/
+def indexAll (o : Obj) (all : List ArgItem) : Option Nat :=
+  match idxOfId o.id all with
+  | some j => some j
+  | none => indexTxt o all
 
 /-! ## The methods -/
 
 namespace Args
 
 /-- Second half of `insert`, after `super().insert`: the book-keeping on `.all`.
-`lst` is the list *after* the insertion, `i` the index variable at that point.
+`lst` is the list *after* the insertion, `i` the index variable at that point, `find` the
+look-up in `.all` (`__index_all` now, `self.all.index` before the repair).
 
 ```python
 if len(self) <= 1:
@@ -168,35 +212,37 @@ if len(self) <= 1:
 else:
     if i > len(self):
         i = len(self) - 1
-    before = self[i - 1]                       # IndexError possible
-    index_before = self.all.index(before)      # ValueError possible
+    before = self[i - 1]                            # IndexError possible
+    index_before = self.__index_all(before)         # ValueError possible
     self.all.insert(index_before + 1, arg)
 ``` -/
-def bookkeep (lst : List Expr) (all : List ArgItem) (i : Int) (it : ArgItem) :
-    List ArgItem × ArgsOut :=
+def bookkeepWith (find : Obj → List ArgItem → Option Nat) (lst : List Obj)
+    (all : List ArgItem) (i : Int) (it : ArgItem) : List ArgItem × ArgsOut :=
   if lst.length ≤ 1 then (all ++ [it], .none)
   else
     let i : Int := if i > (lst.length : Int) then (lst.length : Int) - 1 else i
     match pyGet lst (i - 1) with
     | none => (all, .indexError)
     | some before =>
-      match idxOfTxt ArgItem.txt (ser before) all with
+      match find before all with
       | none => (all, .valueError)
       | some j => (pyInsert all ((j : Int) + 1) it, .none)
+
+def bookkeep := bookkeepWith indexAll
 
 /-- `insert(i, arg)`: coerce (a `TypeError` leaves everything untouched), clamp `i` like
 `list.insert`, insert into the list if `arg` is a group/command, then do the book-keeping. -/
 def insert (st : ArgsSt) (i : Int) (a : ArgIn) : ArgsSt × ArgsOut :=
-  match coerce a with
+  match coerce st.next a with
   | none => (st, .typeError)
-  | some it =>
+  | some (it, next') =>
     let n : Int := st.lst.length
     let i : Int := if i < 0 then max (n + i) 0 else min i n
     let lst' := match listed it with
-      | some e => pyInsert st.lst i e
+      | some o => pyInsert st.lst i o
       | none => st.lst
     let r := bookkeep lst' st.all i it
-    (⟨lst', r.1⟩, r.2)
+    (⟨lst', r.1, next'⟩, r.2)
 
 /-- `append(arg)` is `self.insert(len(self), arg)`. -/
 def append (st : ArgsSt) (a : ArgIn) : ArgsSt × ArgsOut := insert st st.lst.length a
@@ -210,24 +256,26 @@ def extend (st : ArgsSt) : List ArgIn → ArgsSt × ArgsOut
     | (st', .none) => extend st' r
     | (st', out) => (st', out)
 
-/-- `remove(item)`: coerce; `self.all.remove(item)`; `super().remove(item)`. Both removals
-delete the first textually equal entry and raise `ValueError` if there is none – the
-second one after `.all` has already been changed. -/
+/-- `remove(item)`: coerce; `index = self.index(item)` – the first textually equal list
+item, `ValueError` (nothing touched) if there is none; `del
+self.all[self.__index_all(super().__getitem__(index))]`; `super().pop(index)`. -/
 def remove (st : ArgsSt) (a : ArgIn) : ArgsSt × ArgsOut :=
-  match coerce a with
+  match coerce st.next a with
   | none => (st, .typeError)
-  | some it =>
-    match idxOfTxt ArgItem.txt it.txt st.all with
-    | none => (st, .valueError)
-    | some j =>
-      let all' := st.all.eraseIdx j
-      match idxOfTxt ser it.txt st.lst with
-      | none => (⟨st.lst, all'⟩, .valueError)
-      | some k => (⟨st.lst.eraseIdx k, all'⟩, .none)
+  | some (it, next') =>
+    match idxOfTxt (fun o : Obj => ser o.e) it.txt st.lst with
+    | none => (⟨st.lst, st.all, next'⟩, .valueError)
+    | some k =>
+      match st.lst[k]? with
+      | none => (⟨st.lst, st.all, next'⟩, .valueError)      -- unreachable: `k < len`
+      | some o =>
+        match indexAll o st.all with
+        | none => (⟨st.lst, st.all, next'⟩, .valueError)
+        | some j => (⟨st.lst.eraseIdx k, st.all.eraseIdx j, next'⟩, .none)
 
 /-- `pop(i)`: `item = super().pop(i)` (`IndexError`, nothing changed);
-`j = self.all.index(item)` (`ValueError`, list already shortened); `self.all.pop(j)` – the
-first textual twin leaves `.all`; `return item` – the list item itself. -/
+`self.all.pop(self.__index_all(item))` (`ValueError` of the look-up with the list already
+shortened – it cannot happen on reachable states); `return item`. -/
 def pop (st : ArgsSt) (i : Int) : ArgsSt × ArgsOut :=
   match pyIndex st.lst.length i with
   | none => (st, .indexError)
@@ -236,32 +284,34 @@ def pop (st : ArgsSt) (i : Int) : ArgsSt × ArgsOut :=
     | none => (st, .indexError)        -- unreachable: `k < len`
     | some item =>
       let lst' := st.lst.eraseIdx k
-      match idxOfTxt ArgItem.txt (ser item) st.all with
-      | none => (⟨lst', st.all⟩, .valueError)
-      | some j => (⟨lst', st.all.eraseIdx j⟩, .item (.grp item))
+      match indexAll item st.all with
+      | none => (⟨lst', st.all, st.next⟩, .valueError)
+      | some j => (⟨lst', st.all.eraseIdx j, st.next⟩, .item (.grp item))
 
-def reverse (st : ArgsSt) : ArgsSt × ArgsOut := (⟨st.lst.reverse, st.all.reverse⟩, .none)
+def reverse (st : ArgsSt) : ArgsSt × ArgsOut := (⟨st.lst.reverse, st.all.reverse, st.next⟩, .none)
 
-def clear (_ : ArgsSt) : ArgsSt × ArgsOut := (⟨[], []⟩, .none)
+def clear (st : ArgsSt) : ArgsSt × ArgsOut := (⟨[], [], st.next⟩, .none)
 
 /-- `args[i]`. -/
 def getItem (st : ArgsSt) (i : Int) : ArgsSt × ArgsOut :=
   match pyGet st.lst i with
   | none => (st, .indexError)
-  | some e => (st, .item (.grp e))
+  | some o => (st, .item (.grp o))
 
-/-- `TexArgs(items)`: `extend` on the empty state. -/
-def construct (items : List ArgIn) : ArgsSt × ArgsOut := extend .empty items
+/-- `TexArgs(items)`: `extend` on the empty state (allocation counter at `next`). -/
+def construct (items : List ArgIn) (next : Nat := 0) : ArgsSt × ArgsOut :=
+  extend (.empty next) items
 
-/-- `args[lo:hi]`: the built-in slice, wrapped by `TexArgs(value)`. An exception in the
-constructor would propagate (it cannot happen for items that came out of a list). -/
+/-- `args[lo:hi]`: the built-in slice, wrapped by `TexArgs(value)` – the same objects in a
+new `TexArgs`. An exception in the constructor would propagate (it cannot happen for items
+that came out of a list). -/
 def slice (st : ArgsSt) (lo hi : Option Int) : ArgsSt × ArgsOut :=
-  match construct ((pySlice st.lst lo hi).map .grp) with
+  match construct ((pySlice st.lst lo hi).map .grp) st.next with
   | (st', .none) => (st, .sliceResult st')
   | (_, out) => (st, out)
 
 /-- `str(args)`: `''.join(map(str, self))`. -/
-def str (st : ArgsSt) : ArgsSt × ArgsOut := (st, .string (serL st.lst))
+def str (st : ArgsSt) : ArgsSt × ArgsOut := (st, .string (serL (st.lst.map Obj.e)))
 
 def step (st : ArgsSt) : ArgsOp → ArgsSt × ArgsOut
   | .append a => append st a
@@ -284,21 +334,36 @@ def run (st : ArgsSt) : List ArgsOp → ArgsSt × List ArgsOut
     let rs := run r.1 ops
     (rs.1, r.2 :: rs.2)
 
+/-- The object `o` after the object with identity `id` got the value `e'`. -/
+def editObjOf (id : Oid) (e' : Expr) (o : Obj) : Obj := if o.id = id then ⟨o.id, e'⟩ else o
+
+def editItemOf (id : Oid) (e' : Expr) : ArgItem → ArgItem
+  | .grp o => .grp (editObjOf id e' o)
+  | .ws s => .ws s
+
+/-- Not a method of the class: what a later in-place edit of an argument's contents (e.g.
+`args[0].string = '..'`) does to the state – the object with identity `id` has the new value
+wherever it is referenced. Used to state that the book-keeping does not depend on texts. -/
+def editObj (st : ArgsSt) (id : Oid) (e' : Expr) : ArgsSt :=
+  ⟨st.lst.map (editObjOf id e'), st.all.map (editItemOf id e'), st.next⟩
+
+/-! ## Earlier versions of the code, kept for the negative results -/
+
 namespace Legacy
 /-- `insert` before the repair of F9: no clamping, the raw `i` goes to `super().insert`
-(which clamps internally) *and* to the book-keeping. -/
+(which clamps internally) *and* to the book-keeping, which looked `before` up with
+`self.all.index`. -/
 def insert (st : ArgsSt) (i : Int) (a : ArgIn) : ArgsSt × ArgsOut :=
-  match coerce a with
+  match coerce st.next a with
   | none => (st, .typeError)
-  | some it =>
+  | some (it, next') =>
     let lst' := match listed it with
-      | some e => pyInsert st.lst i e
+      | some o => pyInsert st.lst i o
       | none => st.lst
-    let r := bookkeep lst' st.all i it
-    (⟨lst', r.1⟩, r.2)
+    let r := bookkeepWith indexTxt lst' st.all i it
+    (⟨lst', r.1, next'⟩, r.2)
 
-/-- `pop` before its repair: `item = super().pop(i)` (`IndexError`, nothing changed);
-`j = self.all.index(item)` (`ValueError`, list already shortened);
+/-- `pop` before its first repair: `item = super().pop(i)`; `j = self.all.index(item)`;
 `return self.all.pop(j)` – the entry *of `.all`*, i.e. the first textual twin. -/
 def pop (st : ArgsSt) (i : Int) : ArgsSt × ArgsOut :=
   match pyIndex st.lst.length i with
@@ -308,13 +373,57 @@ def pop (st : ArgsSt) (i : Int) : ArgsSt × ArgsOut :=
     | none => (st, .indexError)        -- unreachable: `k < len`
     | some item =>
       let lst' := st.lst.eraseIdx k
-      match idxOfTxt ArgItem.txt (ser item) st.all with
-      | none => (⟨lst', st.all⟩, .valueError)
+      match indexTxt item st.all with
+      | none => (⟨lst', st.all, st.next⟩, .valueError)
       | some j =>
         match st.all[j]? with
-        | none => (⟨lst', st.all⟩, .valueError)     -- unreachable: `j < len`
-        | some r => (⟨lst', st.all.eraseIdx j⟩, .item r)
+        | none => (⟨lst', st.all, st.next⟩, .valueError)     -- unreachable: `j < len`
+        | some r => (⟨lst', st.all.eraseIdx j, st.next⟩, .item r)
 end Legacy
+
+namespace Legacy2
+/-! The code between the repair of `pop` and the repair "kept `.all` in step by text, not by
+object": every look-up in `.all` by `self.all.index` (first textually equal entry), and
+`remove` touching `.all` first. -/
+
+def insert (st : ArgsSt) (i : Int) (a : ArgIn) : ArgsSt × ArgsOut :=
+  match coerce st.next a with
+  | none => (st, .typeError)
+  | some (it, next') =>
+    let n : Int := st.lst.length
+    let i : Int := if i < 0 then max (n + i) 0 else min i n
+    let lst' := match listed it with
+      | some o => pyInsert st.lst i o
+      | none => st.lst
+    let r := bookkeepWith indexTxt lst' st.all i it
+    (⟨lst', r.1, next'⟩, r.2)
+
+/-- `item = self.__coerce(item); self.all.remove(item); super().remove(item)`. -/
+def remove (st : ArgsSt) (a : ArgIn) : ArgsSt × ArgsOut :=
+  match coerce st.next a with
+  | none => (st, .typeError)
+  | some (it, next') =>
+    match idxOfTxt ArgItem.txt it.txt st.all with
+    | none => (⟨st.lst, st.all, next'⟩, .valueError)
+    | some j =>
+      let all' := st.all.eraseIdx j
+      match idxOfTxt (fun o : Obj => ser o.e) it.txt st.lst with
+      | none => (⟨st.lst, all', next'⟩, .valueError)
+      | some k => (⟨st.lst.eraseIdx k, all', next'⟩, .none)
+
+/-- `item = super().pop(i); j = self.all.index(item); self.all.pop(j); return item`. -/
+def pop (st : ArgsSt) (i : Int) : ArgsSt × ArgsOut :=
+  match pyIndex st.lst.length i with
+  | none => (st, .indexError)
+  | some k =>
+    match st.lst[k]? with
+    | none => (st, .indexError)
+    | some item =>
+      let lst' := st.lst.eraseIdx k
+      match indexTxt item st.all with
+      | none => (⟨lst', st.all, st.next⟩, .valueError)
+      | some j => (⟨lst', st.all.eraseIdx j, st.next⟩, .item (.grp item))
+end Legacy2
 
 end Args
 end TexSoup
